@@ -111,9 +111,17 @@ func VerifH_C16_job() {
 		rj.Labels = map[string]string{"shared": "mine", jobconfig.LabelKeyJobConfigUID: "spoofed"}
 		rj.Annotations = map[string]string{"note": "mine"}
 	}
-	if vz.Bool("hasFinalizer") {
+	switch vz.Choice("finalizers", 4) {
+	case 1:
 		rj.Finalizers = []string{executiongroup.DeleteDependentsFinalizer}
+	case 2:
+		// some other controller's finalizer is already on the submitted object
+		rj.Finalizers = []string{"example.com/other"}
+		vz.Cover("foreign-finalizer")
+	case 3:
+		rj.Finalizers = []string{"example.com/other", executiongroup.DeleteDependentsFinalizer}
 	}
+	hadForeign := len(rj.Finalizers) > 0 && rj.Finalizers[0] == "example.com/other"
 	if vz.Bool("hasSubstitutions") {
 		rj.Spec.Substitutions = map[string]string{"jobconfig.name": "explicit", "option.a": "1"}
 		if vz.Bool("emptyExplicitSubstitution") {
@@ -139,6 +147,12 @@ func VerifH_C16_job() {
 		}
 	}
 	vz.Assert(nfin == 1, "C16/finalizer-present-exactly-once")
+	// C13: the finalizer is what keeps a Job in the API until its tasks are gone - every
+	// admitted Job carries it, whatever finalizers it was submitted with
+	vz.Assert(nfin >= 1, "C13/admitted-job-carries-the-delete-dependents-finalizer")
+	if hadForeign {
+		vz.Assert(meta.ContainsFinalizer(once.Finalizers, "example.com/other"), "C16/submitted-finalizers-kept")
+	}
 	if hadType {
 		vz.Assert(once.Spec.Type == execution.JobTypeScheduled, "C16/type-kept")
 	} else {
